@@ -841,7 +841,189 @@ def check_c14(run, replay):
     fam.finish(broken)
 
 
-KNOWN_CLASSIFIERS = {"KF-5": kf5, "KF-21": kf21}
+# ---------------------------------------------------------------- C12
+
+check_c12 = parser_check(
+    "C12", "theories/props/C12.v", "docs", lambda c, l, t: pfam.docs_ok(c, l),
+    "documentation is exactly the unbroken comment run directly above a declaration / spec / field",
+    "files built line by line: before the package clause and before every function, var/const/type declaration, spec of a group and "
+    "struct field the generator places one of {attached group of 1-3 line comments or a (multi-line) general comment, detached group "
+    "(blank line), trailing comment on the previous line, trailing + attached, nothing}, at any line including the first three; function "
+    "bodies contain comments; struct fields get line-end comments; the generator knows the documentation the property demands; the docs "
+    "of every documented node of the crate's tree are compared with it, and crate and model are compared on the tree with docs; "
+    "non-trivial = all (each file has 2-12 documented nodes)",
+    lambda run: pfam.docs_cases(seed_of(run), budget(run, 3000, 30000)), tokens=False)
+
+
+# ---------------------------------------------------------------- C15
+
+FRAG_EXPRS = [
+    "a", "a + b*c", "f(x, y...)", "a[i]", "a[i:j:k]", "x.(T)", "T{a: 1, b: {2}}", "[]int{1, 2}", "map[K]V{k: v}",
+    "func(a int) (b int) { return a }", "<-c", "&T{}", "*p.q", "(a + b) * c", "a.b.c(d)(e)", "f[int, string](x)", "struct{ a int }{1}",
+    "x == y && !z || w", "[...]T{}", "chan<- int(c)", "(<-chan int)(c)", "interface{ m() }(nil)", "a[f[int]]", "-x + ^y",
+    "func() { if x := T{}; x {} }", "func() { for i := range T{} {} }", "'a'", "\"s\" + `r`", "1.5e3i", "a &^ b << c",
+]
+FRAG_STMTS = [
+    "x := 1", "a, b = b, a", "x++", "c <- v", "L: for { break L }", "if x := f(); x > 0 { y() } else if z { w() } else { v() }",
+    "for i := 0; i < n; i++ { continue }", "for k, v := range m { _ = k }", "for range ch {}", "switch x := y.(type) { case int: default: }",
+    "switch { case a > b: fallthrough; default: }", "select { case v := <-c: _ = v; case c <- 1: default: }", "go f(x)", "defer func() {}()",
+    "return a, b", "var x, y int = 1, 2", "const c = iota", "type T[P any] struct{ p P }", "type A [N]int", "type I interface{ A | B; m() }",
+    "{ x(); { y() } }", "goto L", "f(T{1})", "if (T{}) == x {}", "x.y.z = w[i]", "var f = func() { type T[P interface{ m() }] int }",
+]
+FRAG_DECLS = [
+    "var x int", "var (a = 1; b, c string)", "const (A = iota; B; C)", "type T struct { a int; b, c string `t`; *E; pkg.F }",
+    "type T[P any, Q interface{ ~int | string }] map[P]Q", "type A [len(x)]int", "type S []int", "type F = func(a, b int, c ...string) (d error)",
+    "func f() {}", "func (r *R[K, V]) m(a int) (b int) { return a }", "func g[T any](x T) T { return x }",
+    "type I interface { m(); A | B; ~[]byte; pkg.T }", "var v = map[string][]struct{ a int }{\"k\": {{1}}}", "func h() { L: for { if x { break L } } }",
+    "type T[P *C,] int", "type U[P (C)] int", "var w = func() { switch x := T{}; x.(type) {} }",
+]
+PREFIXES = [
+    "", "var a int\n", "type T[P any] struct{ p P }\n", "type A [N]int\ntype I interface{ A | B }\n",
+    "func f() { if x := T{}; x {} else {}\n for i := range T{} {}\n switch y := z.(type) {} }\n", "// doc\nfunc g() {} // trailing\n",
+    "var x = ((((((((((((((((((((a))))))))))))))))))))\n", "type S struct {\n a int // c\n b int\n}\n/* pending */ /* comments */\n",
+    "func k() { L: L2: L3: for { select { case <-c: default: } } }\n", "var m = map[K]V{a: {b: {c: d}}}\nconst (X = iota; Y)\n",
+    "type G[P interface{ m(x int) }] int\ntype H[P *struct{ a int }] int\n", "func é日本() { 日 := `raw\nstring`; _ = 日 }\n",
+]
+
+
+def shift_positions(text, k):
+    return re.sub(r"@(\d+)", lambda m: "@%d" % (int(m.group(1)) + k), text)
+
+
+def check_c15(run, replay):
+    run.trusted = vlib.BASE_TRUST
+    gv, gm, _ = prepare(run)
+    if replay:
+        replay_parse(run, replay, gv, gm)
+        return
+    broken = prove(run, "theories/props/C15.v")
+    fam = Families(run, gv, gm)
+    rng = __import__("random").Random(seed_of(run))
+    progs, hit, labels = pfam.gen_programs(seed_of(run), budget(run, 60, 400), budgets=(10, 15, 25))
+    gen_prefixes = [pfam.gogen.render(p.tokens, r, "newlines").split("\n", 1)[1] + "\n" if "\n" in pfam.gogen.render(p.tokens, r, "newlines") else ""
+                    for r, p in progs]
+    prefixes = PREFIXES + [g for g in gen_prefixes if g.strip() and "package" not in g][: budget(run, 40, 300)]
+
+    def alone_and_embedded(frags, mode, wrap_pre, wrap_post, pick):
+        """fragment alone through entry point `mode`; embedded as  package p; <prefix> wrap_pre frag wrap_post"""
+        alone = [pfam.Case(f, "F-frag-" + mode) for f in frags]
+        impl_a, mod_a, _ = fam.exec(alone, mode=mode)
+        fam.judge(alone, impl_a, mod_a, [None] * len(alone), "full", None, "fragment alone: crate == model")
+        emb = []
+        for fi, f in enumerate(frags):
+            for pre in prefixes:
+                head = "package p\n" + pre + wrap_pre
+                c = pfam.Case(head + f + wrap_post, "F-embedded-" + mode, note=(fi, len(head)))
+                emb.append(c)
+        impl_e, mod_e, _ = fam.exec(emb)
+
+        def oracle(c, line, tl):
+            fi, k = c.note
+            a = impl_a[fi]
+            if not a.startswith("OK "):
+                return None if not line.startswith("OK ") else None   # fragment rejected alone: nothing to compare
+            if not line.startswith("OK "):
+                return "fragment accepted alone is rejected when embedded: %s" % line[:80]
+            sub = pick(pfam.tree_of(line))
+            if sub is None:
+                return "embedded fragment not found in the tree"
+            want = pfam.sexpr.dump(pfam.sexpr.parse(shift_positions(a[3:], k)), keep_pos=True)
+            have = pfam.sexpr.dump(sub, keep_pos=True)
+            if want != have:
+                return "embedded subtree differs from the fragment parsed alone (shifted by %d): %s" % (
+                    k, pfam.sexpr.first_diff(want, have))
+            return None
+        fam.judge(emb, impl_e, mod_e, [None] * len(emb), "positions", oracle,
+                  "a fragment parses the same alone and embedded after other code")
+        return len(alone) + len(emb)
+
+    def last_decl(t):
+        d = t.kids[2].kids
+        return d[-1] if d else None
+
+    def var_value(t):
+        d = last_decl(t)
+        try:
+            return d.kids[0].kids[2].kids[0]
+        except Exception:
+            return None
+
+    def body_stmt(t):
+        d = last_decl(t)
+        try:
+            return [s for s in d.kids[3].kids][0]
+        except Exception:
+            return None
+
+    alone_and_embedded(FRAG_EXPRS, "expr", "var _ = ", "\n", var_value)
+    alone_and_embedded(FRAG_STMTS, "stmt", "func _() { ", " }\n", body_stmt)
+    # declarations: alone in a file vs after a prefix
+    decl_alone = [pfam.Case("package p\n" + d + "\n", "F-decl-alone") for d in FRAG_DECLS]
+    impl_a, mod_a, _ = fam.exec(decl_alone)
+    fam.judge(decl_alone, impl_a, mod_a, [None] * len(decl_alone), "full", None, "declaration alone")
+    emb = []
+    for fi, d in enumerate(FRAG_DECLS):
+        for pre in prefixes:
+            emb.append(pfam.Case("package p\n" + pre + d + "\n", "F-decl-after", note=(fi, len(pre))))
+    impl_e, mod_e, _ = fam.exec(emb)
+
+    def decl_oracle(c, line, tl):
+        fi, k = c.note
+        a = impl_a[fi]
+        if not a.startswith("OK "):
+            return None
+        if not line.startswith("OK "):
+            return "declaration accepted alone is rejected after other declarations: %s" % line[:80]
+        want = pfam.sexpr.dump(last_decl(pfam.sexpr.parse(shift_positions(pfam.split_ok(a)[0], k))), keep_pos=True)
+        have = pfam.sexpr.dump(last_decl(pfam.tree_of(line)), keep_pos=True)
+        if want != have:
+            return "declaration after a prefix differs from the same declaration alone (shifted by %d): %s" % (
+                k, pfam.sexpr.first_diff(want, have))
+        return None
+    fam.judge(emb, impl_e, mod_e, [None] * len(emb), "positions", decl_oracle, "a declaration parses the same after other declarations")
+    # call histories: n parse_stmt calls on one parser == the statements of a block
+    seqs = []
+    for _ in range(budget(run, 150, 1500)):
+        k = rng.choice([2, 3])
+        ss = [rng.choice(FRAG_STMTS) for _ in range(k)]
+        seqs.append((k, ss))
+    for k in (2, 3):
+        hs = [pfam.Case("; ".join(ss) + ";", "F-history-%d" % k, note=ss) for kk, ss in seqs if kk == k]
+        impl_h, mod_h, _ = fam.exec(hs, mode="stmts%d" % k)
+        blocks = [pfam.Case("package p\nfunc _() { " + c.src + " }\n", "F-history-block") for c in hs]
+        impl_b, mod_b, _ = fam.exec(blocks)
+
+        def hist_oracle(c, line, tl, impl_b=impl_b, hs=hs):
+            i = hs.index(c)
+            b = impl_b[i]
+            if not line.startswith("OK ") or not b.startswith("OK "):
+                return None if line.startswith("OK ") == b.startswith("OK ") else \
+                    "statement sequence is %s through repeated parse_stmt calls but %s inside a block" % (line[:20], b[:20])
+            blk = last_decl(pfam.tree_of(b)).kids[3]
+            want = [pfam.sexpr.dump(s) for s in blk.kids if s.tag != "Empty"]
+            have = [pfam.sexpr.dump(s) for s in pfam.sexpr.parse(line[3:]).kids if s.tag != "Empty"]
+            return None if want == have else "repeated parse_stmt calls give other statements than the same text in a block"
+        fam.judge(hs, impl_h, mod_h, [None] * len(hs), "full", hist_oracle, "repeated entry-point calls on one parser")
+    run.cov["rule"] = ("%d expression, %d statement and %d declaration fragments (every kind of production, including the ones that make the "
+                       "parser backtrack, control clause headers with composite literals, generics) x %d prefixes (hand-written ones that "
+                       "trigger backtracking, control headers, deep nesting, pending comments, labels, multi-byte text + generated declaration "
+                       "sequences): each fragment is parsed alone through Parser::expression / Parser::parse_stmt / as the only declaration "
+                       "and embedded after the prefix; the embedded subtree must equal the one parsed alone with positions shifted by the "
+                       "prefix length; plus statement sequences through 2-3 successive parse_stmt calls on one parser vs the same text in a "
+                       "block; crate and model compared on trees with positions; non-trivial = all (distinct inputs)"
+                       % (len(FRAG_EXPRS), len(FRAG_STMTS), len(FRAG_DECLS), len(prefixes)))
+    run.cov["samples"] = ["package p\n" + prefixes[2] + "var _ = " + FRAG_EXPRS[6], FRAG_STMTS[5], FRAG_DECLS[4]]
+    for fs in fam.fam_stats.values():
+        pass
+    fam.nontrivial = set(range(run.cov["evaluations"]))
+    fam.finish(broken)
+
+
+def kf21_docs(case, msg, line):
+    return msg.startswith("KF-21")
+
+
+KNOWN_CLASSIFIERS = {"KF-5": kf5, "KF-21": kf21_docs}
 
 REGISTRY = {
     "C10": check_c10,
@@ -858,4 +1040,6 @@ REGISTRY = {
     "C03": check_c03,
     "C13": check_c13,
     "C14": check_c14,
+    "C12": check_c12,
+    "C15": check_c15,
 }
